@@ -488,8 +488,7 @@ def _solve_closed_part(g, res):
                     bc = pf.BoundaryConditions(g.mesh)
                     for ax in range(g.d):
                         if closure[ax] == "periodic":
-                            getattr(bc, U.SIDES[ax][0]).periodic = True
-                            getattr(bc, U.SIDES[ax][1]).periodic = True
+                            U.set_periodic(bc, ax, U.flag_mode(ax, len(terms), scheme == "explicit", sum(g.dims)))
                     phi = pf.CellVariable(g.mesh, U.generic_array(g.dims, tag=7, signed=True), bc)
                     I0 = [_integral(phi, V, mn == "cellvolume") for mn, V in ms]
                     A0 = [float(np.sum(V * np.abs(phi.value))) for _, V in ms]
